@@ -949,7 +949,7 @@ def execute(plan: dict, ctx: dict) -> dict:
             check_all(i, op, prop_clause)
     except _Stop:
         pass
-    for rid in sorted(regs):
+    for rid in sorted(set(regs) & set(refs)):
         for t in sorted(refs[rid].blocks):
             log.add("final", arr_bytes(np.asarray(regs[rid][t])) if t in regs[rid] else b"missing")
     return {
